@@ -8,10 +8,21 @@ class Unrepresentable(Exception):
     pass
 
 
+class NonFinite(Unrepresentable):
+    """NaN or infinity where a real number is expected"""
+
+
 def red(q):
     """Reduce an exact number (int / Fraction / integral or dyadic float) mod P."""
     if isinstance(q, bool):
         q = int(q)
+    try:
+        if q != q or q in (float("inf"), float("-inf")):
+            raise NonFinite(repr(q))
+    except NonFinite:
+        raise
+    except Exception:
+        pass
     if isinstance(q, float):
         q = Fraction(q)          # exact: every finite double is a dyadic rational
     elif not isinstance(q, (int, Fraction)):
